@@ -90,6 +90,24 @@ CHECKS = {
   text="From 10 seed programs (object, oneof, enum, nested inline types, multi-file / multi-package references, service, publish / reqres / upsert topics, entity) every history of <=2 (quick) / <=3 (thorough) append edits is explored: a field of 6 kinds (string, inline object, inline enum, array of ref, inline types named like existing top-level types) at the end of every object / oneof / request / response / topic message / entity data / event; an option, status, event, method or message at the end of every enum / entity / service / publish topic; 7 kinds of top-level declaration at the end of every file (incl. names an existing inline type already has). Invariant on every transition and against the seed: every message, field (name, number, type, type name, label, JSON name, optionality, oneof), enum value (name, number), service and method (types, verb, path) of the earlier program is present and identical.",
   note="successor states are rebuilt by replaying the history on a freshly built seed; programs the compiler rejects are left to C07",
   design="3/C13"),
+ "C12": dict(
+  engine="E1",
+  technique=TECH_E1 + "; every rule declaration of the matrix x boundary candidate values, oracle = standard validator verdict == reference predicate",
+  text="~900 declarations (integers x 4 formats x minimum / maximum x each exclusive flag; strings x length bounds x pattern; keys plain / id62 / uuid / custom; bytes lengths; bool const; enum in / notIn incl. the explicit zero option; arrays x minItems / maxItems / uniqueItems x 4 item types with and without item rules; each x required), every one compiled alone in its file, are validated with protovalidate-go on dynamic messages for every candidate value around each induced boundary (below / at / above each bound, rune-counted string lengths with multi-byte runes, matching / non-matching patterns, valid / invalid id62 and uuid, defined / undefined enum numbers, list lengths with duplicates and invalid items, absent vs zero for required fields): the validator accepts iff the reference predicate (JSON-Schema semantics, inclusive unless exclusive=true) accepts.",
+  note="the proto3 zero value of a non-required field is treated as absent and not used as a candidate; protovalidate-go v0.9.2 is the trusted validator",
+  design="3/C12"),
+ "C04": dict(
+  engine="E1",
+  technique=TECH_E1 + "; programs of the schema families compiled and reflected back, compared with an expected schema built from the program model; memory path vs text path vs cache path",
+  text="~1350 programs (single-field matrix, nesting with name overrides, enums, 10 reference forms x 3 kinds, descriptions / flatten / foreign keys, nested-vs-top-level name collisions, and the full rule matrix incl. list rules, date / decimal / timestamp / float rules and large INT64 literals) are compiled; every object, oneof and enum reflected by SchemaSetFromFiles equals the expected schema (property names, order, proto field paths, types and formats, required / optional, flatten, key formats and entity keys, descriptions, validation and list rules with inclusivity); SchemaCache.Schema gives the same schema in three query orders; and reflecting the printed .proto text re-parsed with protocompile gives exactly the same schemas.",
+  note="empty rule / ext messages == absent, exclusive=false == absent; 4 open known findings (plain key in array / map, id62 / uuid keys in maps)",
+  design="3/C04"),
+ "C05": dict(
+  engine="E1",
+  technique=TECH_E1 + "; every file the compiler emits for the program families, every hand-written repo proto and a raw option-value matrix are printed, re-parsed with protocompile and compared by an order-insensitive descriptor dump; second print must be byte-identical",
+  text="~2450 bundles: all files compiled from C02's families, the rule matrix, annotations and 8 shape programs (self / mutual references, nested types shadowing top-level ones, overlapping package prefixes, optional message fields, multi-paragraph / unicode descriptions, patterns with escapes); all 37 hand-written protos under /repo/proto; and 7 option hosts x 55 extension values (strings with every escape / control / non-BMP rune, integer and float boundaries, +-inf, NaN, bytes, enums, nested / empty / repeated messages, repeated scalars, maps). Oracle: the printed text parses and links; package, imports, messages and nesting, fields (name, number, kind, type, cardinality, proto3 optional, JSON name, real-oneof membership, map types), enums and values, services and methods, every option value (re-serialised through one resolver) and leading comments (exact) are equal; printing the re-parsed file reproduces the text.",
+  note="declaration order is not compared; 1 open known finding (blank-line layout of hand-written protos not stable on the second print)",
+  design="3/C05"),
 }
 
 PENDING = {
